@@ -430,6 +430,53 @@ func c11Worker(t *testing.T) int {
 	return 0
 }
 
+// replayC11 re-executes one event sequence of the event-order layer 10 times.
+func replayC11(t *testing.T, tier string, v report.Viol) int {
+	var cfg c11Cfg
+	if _, err := fmt.Sscanf(v.Check, "C11/events messages=%d bytes=%d", &cfg.MaxMessages, &cfg.MaxBytes); err != nil {
+		fmt.Fprintln(os.Stderr, "replay: only event-order violations (C11/events ...) can be replayed here:", err)
+		return 2
+	}
+	code := 0
+	synctest.Test(t, func(t *testing.T) {
+		w, err := world.Open()
+		if err != nil {
+			t.Fatal(err)
+		}
+		defer w.Close()
+		w.SeqTick = false
+		ctx := context.Background()
+		w.Pub.CreateTopic(ctx, &pubsubpb.Topic{Name: c11Topic})
+		w.Sub.CreateSubscription(ctx, &pubsubpb.Subscription{Name: c11Sub, Topic: c11Topic})
+		var idStr string
+		if err := w.DB.QueryRow("SELECT id FROM subscriptions").Scan(&idStr); err != nil {
+			t.Fatal(err)
+		}
+		base, _ := w.Dump()
+		x := &c11Exec{w: w, cfg: cfg, base: base, subID: uuid.MustParse(idStr)}
+		bad := 0
+		for i := 0; i < 10; i++ {
+			viols, _, _, _, err := x.run(v.Trace)
+			if err != nil {
+				t.Fatal(err)
+			}
+			if len(viols) > 0 {
+				bad++
+				if bad == 1 {
+					fmt.Println("HIT", viols[0])
+				}
+			}
+		}
+		fmt.Printf("replayed %v 10 times: %d violating runs\n", v.Trace, bad)
+		if bad > 0 {
+			code = 1
+		}
+	})
+	return code
+}
+
+func init() { replayers["C11"] = replayC11 }
+
 func runC11(t *testing.T, tier string) int {
 	if os.Getenv("VERIF_C11_WORKER") != "" {
 		return c11Worker(t)
